@@ -238,7 +238,7 @@ Definition assoc_free_stmt (st : stmt) : bool := match st with SAssoc _ _ | SEnd
 
 (* ------------------------------------------------------------------ resolution *)
 Definition ent_flags_ok (e : entity) : bool :=
-  match e with EVar _ pt => pt | _ => true end.
+  match e with EVar _ pt sc => pt && negb sc | _ => true end.
 
 Fixpoint keys_unique (l : labels) : bool :=
   match l with
@@ -290,5 +290,5 @@ Definition resolvable (tb : symtab) (ss : list stmt) : bool :=
   forallb wf_stmt ss && forallb plain_ok ss && forallb step_ok ss     (* well formed; earlier cascade branches do not apply *)
   && nest_ok 0 ss && assoc_names_ok ss                                (* ASSOCIATE constructs properly closed *)
   && tb_ok tb                                                         (* correct name tables (C07) *)
-  && negb (region_intrinsic_named tb ss)                              (* region 3 *)
+  && negb (region_keyword_named tb)                                   (* region 3 *)
   && forallb (fun ch => is_nil (classify0 tb ch)) (env_inner [] ss).  (* inner parts of designators are variables *)
